@@ -413,17 +413,13 @@ def run(sc) -> RunResult:
                         ok = True
                         for j, (entry, text, prog) in enumerate(calls):
                             res.states.add(hashlib.sha256(text.encode()).hexdigest()[:16])
-                            if entry.split(":")[0] != ENTRY_OF[backend]:
-                                res.violate("C03/wrong-entry-point", f"op#{n_op} {k} via {backend} reached the solver through {entry} [{tag}]")
-                                ok = False
-                                break
                             if not check_emission(res, sc, tag, n_op, entry, text, prog, decls, ids, constraints, keys, k, j == 0):
                                 ok = False
                                 break
                         if not ok:
                             continue
                         if mode == "scripted":
-                            _check_reflection(res, tag, n_op, k, r, sols, decls, ids, expected_holder.get("last"))
+                            _check_reflection(res, tag, n_op, k, r, sols, decls, ids, expected_holder.get("last"), keys)
                         else:
                             M = refsem.models(decls, constraints)
                             if k == "find_answer":
@@ -476,7 +472,7 @@ class _Shadow:
         return True
 
 
-def _check_reflection(res, tag, n_op, k, r, sols, decls, ids, last):
+def _check_reflection(res, tag, n_op, k, r, sols, decls, ids, last, keys=()):
     if last is None:
         raise core.HarnessError("scripted peer was not consulted")
     kind, content = last
@@ -497,7 +493,9 @@ def _check_reflection(res, tag, n_op, k, r, sols, decls, ids, last):
         if want is not None:
             any_val = True
         if want is None:
-            if got is not None:
+            # an answer key the deduction reply does not list is undecided (C02: None); nothing is
+            # required of variables that are not answer keys
+            if got is not None and (kind == "answer" or i in keys):
                 res.violate("C03/reply-not-reflected", f"op#{n_op} {k}: {name} was not in the reply but sol is {got!r} [{tag}]")
                 return
         elif got != want or type(got) is not type(want):
